@@ -657,3 +657,65 @@ def run_systematic(seed, tier):
             inconc += r['inconclusive']
             samples += r['samples'][:1]
     return tot, viol, inconc, samples
+
+
+# ---- C17: calls made on other threads while a tracer is alive are traced too ----------------------------------
+def traced_calls(v, seed, tier):
+    """Tracer installed before the threads start, removed after they joined (documented obligation);
+    every accepted call of every thread must deliver exactly one record to it. Returns #calls checked."""
+    try:
+        exe, meta = build_thr('tsan')
+    except build.BuildError as ex:
+        v.inconclusive.append('threaded driver does not build: %s' % str(ex)[-800:])
+        return 0
+    rng = random.Random(seed * 60013 + 7)
+    n = 150 if tier == 'quick' else 3000
+    shapes_by_id = {s['id']: s for s in meta['shapes']}
+    trials = []
+    for _ in range(n):
+        t = sanitize_trial(meta, gen_trial(meta, rng, rng.choice([2, 3, 4]), maxops=6))
+        t.pre.append(('tr', 900, 0))
+        t.post.insert(0, ('rmtr', 900))
+        trials.append(t)
+    logdir = tempfile.mkdtemp(prefix='tsanlog-', dir=os.path.join(VERIF, 'out'))
+    checked = 0
+    try:
+        for b in range(0, n, 50):
+            batch = trials[b:b + 50]
+            rc, so, se, to = run_thr(exe, ''.join(trial_text(i, t) for i, t in enumerate(batch)), logdir, 300)
+            parsed, _ = parse_trials(so)
+            if rc != 0 or to:
+                v.inconclusive.append('threaded tracer scene: driver exit %s timeout %s' % (rc, to))
+                continue
+            for i, t in enumerate(batch):
+                if i not in parsed or not parsed[i]['done']:
+                    continue
+                sites = {}
+                for ops in [t.pre] + t.threads:
+                    for op in ops:
+                        if op[0] == 'exp':
+                            sl = shapes_by_id[op[2]]['slots'][op[3]]
+                            sites[op[1]] = (sl['file'], sl['line'], sl['text'])
+                for ti, (ops, recs) in enumerate(zip(t.threads, parsed[i]['threads'])):
+                    for op, (a, b2, ob) in zip(ops, recs):
+                        if op[0] != 'call' or ob.outcome is None or ob.outcome[0] == 'fatal':
+                            continue
+                        checked += 1
+                        hid = ob.outcome[1] if ob.outcome[0] == 'ret' else (ob.outcome[2] if ob.outcome[0] == 'exc' and len(ob.outcome) > 2 else None)
+                        bad = None
+                        if len(ob.trace) != 1:
+                            bad = 'accepted call on thread %d delivered %d trace records to the live tracer' % (ti, len(ob.trace))
+                        else:
+                            tid, f, line, text = ob.trace[0]
+                            if tid != 900:
+                                bad = 'record delivered to tracer %s' % tid
+                            elif hid in sites and (oracle.base(f), line) != sites[hid][:2]:
+                                bad = 'record location %s:%d, handler %d is at %s:%d' % (oracle.base(f), line, hid, sites[hid][0], sites[hid][1])
+                            elif hid in sites and not text.startswith(sites[hid][2]):
+                                bad = 'record text %r, handler text %r' % (text[:50], sites[hid][2])
+                        if bad:
+                            v.violation('trace|threads', 'tracer alive while threads call: %s (operation %s)' % (bad, model.op_to_line(op)),
+                                        dict(engine='thr', trial=trial_text(0, t)))
+    finally:
+        shutil.rmtree(logdir, ignore_errors=True)
+    return checked
